@@ -12,6 +12,7 @@ import GoaktVerif.Spec.C45
 import GoaktVerif.Lemmas.C45.Sem
 import GoaktVerif.Lemmas.C45.Flow
 import GoaktVerif.Lemmas.C45.Sink
+import GoaktVerif.Lemmas.C45.Bridge
 
 namespace GoaktVerif.C45
 open GoaktVerif.Model.C45 GoaktVerif.Spec.C45
@@ -39,32 +40,106 @@ def C45_full : Prop :=
     orderedPipeline stages = true →
     ((mkNet fusion stages input).run picks).sink? = some s → SinkOK stages input s
 
-/-! ### refutation: Batch loses its window when downstream demand is exhausted (finding C45-F1) -/
+/-! ### the former refutation witness (finding C45-F1, fixed by 688097a)
+
+`[Batch 1, Buffer 1]` on `[1,2,3]`: Buffer(1) asks the Batch for one element at a time. Before the fix the Batch
+dropped `[2,3]` on the schedule below; now the window waits for demand and every schedule tried delivers all. -/
 
 def witnessStages : List Stage := [.batch 1, .buffer 1]
 def witnessInput : List Val := [.int 1, .int 2, .int 3]
-/-- Buffer(1) asks the Batch for one element; the Batch handles 1,2,3 and streamComplete before the
-    Buffer's next request arrives: `flush` finds `downstreamDemand = 0` twice, then completion drops [2,3]. -/
 def witnessPicks : List Pick :=
   [.up 2, .up 1, .up 0, .down 0, .down 0, .down 0, .down 0, .down 1, .down 1, .down 2, .down 2]
 
-theorem witness_run :
-    (((mkNet false witnessStages witnessInput).run witnessPicks).sink?.map
-        fun s => (s.received, s.alive, s.termErr)) = some ([.list [1]], false, none) := by decide
+/-- regression (a TEST on one schedule, not a theorem about all): after the old failing prefix the run
+    continues and the sink ends with the full list semantics -/
+theorem witness_regression :
+    (((simulate false false witnessStages witnessInput).sink?.map fun s => (s.received, s.alive, s.termErr)) =
+      some ([.list [1], .list [2], .list [3]], false, none)) ∧
+    ((((mkNet false witnessStages witnessInput).run witnessPicks).sink?.map fun s => (s.received, s.termErr)) =
+      some ([.list [1]], none)) := by decide
 
-theorem witness_sem : (sem witnessStages witnessInput).1 = [.list [1], .list [2], .list [3]] := by decide
+/-! ### the composition theorem: every schedule of every pipeline of flowActor-backed stages -/
 
-theorem C45_refuted : ¬ C45_full := by
-  intro h
-  have hw := witness_run
-  cases hs : ((mkNet false witnessStages witnessInput).run witnessPicks).sink? with
-  | none => rw [hs] at hw; simp at hw
-  | some s =>
-    rw [hs] at hw
-    simp only [Option.map_some, Option.some.injEq, Prod.mk.injEq] at hw
-    obtain ⟨hr, ha, he⟩ := hw
-    have := (h false witnessStages witnessInput witnessPicks s (by decide) hs).2.2.2.1 ha he
-    rw [hr, witness_sem] at this
-    exact absurd this.1 (by decide)
+/-- pipelines covered by the composition theorem: every stage is backed by a flowActor (Map, TryMap,
+    Filter, FlatMap, Flatten, Scan, Deduplicate, Buffer, list-sum) — Batch and the parallel stages are modelled
+    and tied by replay but not yet inside the composition proof -/
+def flowPipeline (stages : List Stage) : Prop := ∀ st ∈ stages, st.isFlow = true
+
+/-- the middle nodes `mkNet` builds -/
+def midsOf (fusion : Bool) (stages : List Stage) : List Node :=
+  if fusion then fuseRuns stages [] else stages.map mkNode
+
+theorem mkNet_eq (fusion : Bool) (stages : List Stage) (input : List Val) :
+    mkNet fusion stages input = wireAll (midsOf fusion stages).length.succ.succ (rawNet (midsOf fusion stages) input) := by
+  simp [mkNet, mkNodes, rawNet, midsOf]
+
+theorem midsOf_fresh (fusion : Bool) (stages : List Stage) (h : flowPipeline stages) :
+    ∀ nd ∈ midsOf fusion stages, FreshMid nd := by
+  cases fusion with
+  | true => exact freshMid_fuseRuns stages [] h (by simp)
+  | false =>
+    intro nd hnd
+    simp only [midsOf, Bool.false_eq_true, if_false, List.mem_map] at hnd
+    obtain ⟨st, hst, rfl⟩ := hnd
+    exact freshMid_mkNode st (h st hst)
+
+/-- the network invariant holds in every state of every run -/
+theorem run_inv (fusion : Bool) (stages : List Stage) (input : List Val) (picks : List Pick)
+    (h : flowPipeline stages) : GInv input ((mkNet fusion stages input).run picks) := by
+  have hfresh := midsOf_fresh fusion stages h
+  have hraw := GInv.raw (midsOf fusion stages) input hfresh
+  have hal := rawNet_allAlive (midsOf fusion stages) input hfresh
+  have hw := wireAll_inv _ hraw hal (midsOf fusion stages).length.succ.succ (by simp [rawNet])
+  rw [mkNet_eq]
+  exact hw.1.run picks
+
+theorem semsOf_wireAll (k : Nat) (net : Net) : semsOf (wireAll k net) = semsOf net := by
+  induction k with
+  | zero => rfl
+  | succ k ih => simp only [wireAll]; rw [semsOf_deliver, ih]
+
+theorem nodes_length_run (net : Net) (picks : List Pick) : (semsOf (net.run picks)).length = (semsOf net).length := by
+  rw [semsOf_run]
+
+/-- COMPOSITION (any fusion mode), against the semantic functions of the nodes `mkNet` builds:
+    at every moment of every schedule the sink's record is a prefix of the ideal output, the hook runs at
+    most once, normal completion means the whole ideal output with no failing stage, a failure carries a
+    candidate error. -/
+theorem net_correct (fusion : Bool) (stages : List Stage) (input : List Val) (picks : List Pick) (s : SinkSt)
+    (h : flowPipeline stages) (hs : ((mkNet fusion stages input).run picks).sink? = some s) :
+    let Fs := (rawNet (midsOf fusion stages) input).nodes.map midF
+    SinkOK' (idealAt Fs input (midsOf fusion stages).length).1 (idealAt Fs input (midsOf fusion stages).length).2 s := by
+  have hinv := run_inv fusion stages input picks h
+  have hok := hinv.sink_ok s hs
+  have hsem : semsOf ((mkNet fusion stages input).run picks) = (rawNet (midsOf fusion stages) input).nodes.map midF := by
+    rw [semsOf_run, mkNet_eq, semsOf_wireAll]; rfl
+  have hlen : ((mkNet fusion stages input).run picks).nodes.length = (midsOf fusion stages).length + 2 := by
+    have := congrArg List.length hsem
+    simpa [semsOf, rawNet] using this
+  rw [hsem, hlen] at hok
+  simpa using hok
+
+/-- C45 for every pipeline of flowActor-backed stages run WITHOUT fusion, every input, every schedule:
+    the full property against the list semantics `sem`. -/
+theorem C45_partial (stages : List Stage) (input : List Val) (picks : List Pick) (s : SinkSt)
+    (h : flowPipeline stages) (hs : ((mkNet false stages input).run picks).sink? = some s) :
+    SinkOK stages input s := by
+  have hn := net_correct false stages input picks s h hs
+  have hmids : midsOf false stages = stages.map mkNode := by simp [midsOf]
+  have hFs : (rawNet (midsOf false stages) input).nodes.map midF =
+      midF (.src { rest := input }) :: ((stages.map fun st => xfRun st {}) ++ [midF (.sink defaultCfg {})]) := by
+    simp only [rawNet, hmids, List.map_cons, List.map_append, List.map_map, List.map_nil]
+    congr 2
+    apply List.map_congr_left
+    intro st hst
+    exact midF_mkNode st (h st hst)
+  have hlen : (midsOf false stages).length = (stages.map fun st => xfRun st {}).length := by simp [hmids]
+  simp only at hn
+  rw [hFs, hlen, idealAt_eq_semF, semF_eq_sem stages h] at hn
+  exact hn
+
+/-! non-vacuity -/
+example : flowPipeline [.map 1, .filter 2 0, .scan, .buffer 3] := by
+  intro st hst; simp at hst; rcases hst with rfl | rfl | rfl | rfl <;> rfl
 
 end GoaktVerif.C45
